@@ -189,3 +189,59 @@ package rlp
 //@ func DecodeBytes
 //@   props C14
 //@   ensures result == nil ==> gh("left", gh("readerFor", arrayOf(b))) == 0
+
+// ---------------------------------------------------------------------------------------------------------------------
+// The slice-based decoder of raw.go (readSize, readKind, Split, SplitString, SplitList, CountValues): used by the trie node
+// decoder on stored blobs and by everything that walks an encoded list without reflection.  C15: no byte string makes it
+// index out of range (the subtraction uint64(len(buf))-tagsize cannot wrap, b[ts:ts+cs] stays inside b).  C14, canonical
+// sizes: a long-form size is at least 56 and has no leading zero byte; content and rest are disjoint parts of the input.
+//@ func readSize
+//@   props C14 C15
+//@   modifies nothing
+//@   ensures result1 == nil ==> result0 >= 56 && slen >= 1 && int(slen) <= len(b) && b[0] != 0
+//@   ensures result1 != nil ==> result0 == 0
+//@   nopanic
+
+//@ func readKind
+//@   props C14 C15
+//@   modifies nothing
+//@   ensures result3 == nil ==> len(buf) >= 1 && result1 <= 9 && result2 <= uint64(len(buf)) - result1 && result1 <= uint64(len(buf))
+//@   ensures result3 == nil ==> result1 + result2 >= 1
+//@   ensures result3 == nil && buf[0] < 128 ==> result0 == Byte && result1 == 0 && result2 == 1
+//@   ensures result3 == nil && buf[0] >= 128 && buf[0] < 184 ==> result0 == String && result1 == 1 && int(result2) == int(buf[0]) - 128
+//@   ensures result3 == nil && buf[0] >= 184 && buf[0] < 192 ==> result0 == String && result2 >= 56
+//@   ensures result3 == nil && buf[0] >= 192 && buf[0] < 248 ==> result0 == List && result1 == 1 && int(result2) == int(buf[0]) - 192
+//@   ensures result3 == nil && buf[0] >= 248 ==> result0 == List && result2 >= 56
+// a one-byte string below 128 must be encoded as the byte itself
+//@   ensures result3 == nil && buf[0] == 129 && len(buf) > 1 ==> buf[1] >= 128
+//@   ensures result3 != nil ==> result1 == 0 && result2 == 0
+//@   nopanic
+
+//@ func Split
+//@   props C14 C15
+//@   modifies nothing
+//@   ensures result3 == nil ==> len(result1) + len(result2) <= len(b) && len(result2) < len(b)
+//@   ensures result3 != nil ==> result1 == nil && sameSlice(result2, b)
+//@   nopanic
+
+//@ func SplitString
+//@   props C14 C15
+//@   modifies nothing
+//@   ensures result2 == nil ==> len(result0) + len(result1) <= len(b) && len(result1) < len(b)
+//@   ensures result2 != nil ==> result0 == nil && sameSlice(result1, b)
+//@   nopanic
+
+//@ func SplitList
+//@   props C14 C15
+//@   modifies nothing
+//@   ensures result2 == nil ==> len(result0) + len(result1) <= len(b) && len(result1) < len(b)
+//@   ensures result2 != nil ==> result0 == nil && sameSlice(result1, b)
+//@   nopanic
+
+//@ func CountValues
+//@   props C14 C15
+//@   modifies nothing
+//@   invariant @loop 0: i >= 0 && i + len(b) <= old(len(b))
+//@   ensures result1 == nil ==> result0 >= 0 && result0 <= old(len(b))
+//@   ensures result1 != nil ==> result0 == 0
+//@   nopanic
